@@ -176,6 +176,36 @@ def wsdl11(repo):
     }
 
 
+def rebuilds_schema(repo):
+    """True iff Wsdl11.build_interface_document starts, unconditionally, with self.build_schema_nodes() (no
+    argument: no schemaLocation) and XmlSchema.build_schema_nodes starts by emptying self.schema_dict: the
+    document is then built from the Interface alone, whatever was built on the same object before (the
+    validation schema of an input protocol with validator='lxml' is)"""
+    tree = _parse(repo, 'spyne/interface/wsdl/wsdl11.py')
+    fn = _func(tree, 'build_interface_document', 'Wsdl11')
+    body = [st for st in fn.body if not (isinstance(st, ast.Expr) and isinstance(st.value, ast.Constant))]
+    ok1 = False
+    if body and isinstance(body[0], ast.Expr):
+        ch, args = _call_chain(body[0].value)
+        ok1 = ch == ['self', 'build_schema_nodes'] and not args
+    calls = [n for n in ast.walk(fn) if isinstance(n, ast.Call) and _attr_chain(n.func) == ['self', 'build_schema_nodes']]
+    if not calls:
+        raise TranslateError('build_interface_document never calls build_schema_nodes')
+    tree2 = _parse(repo, 'spyne/interface/xml_schema/_base.py')
+    fn2 = _func(tree2, 'build_schema_nodes', 'XmlSchema')
+    body2 = [st for st in fn2.body if not (isinstance(st, ast.Expr) and isinstance(st.value, ast.Constant))]
+    ok2 = bool(body2) and isinstance(body2[0], ast.Assign) and len(body2[0].targets) == 1 \
+        and _attr_chain(body2[0].targets[0]) == ['self', 'schema_dict'] \
+        and isinstance(body2[0].value, ast.Dict) and not body2[0].value.keys
+    a = fn2.args
+    names = [x.arg for x in a.args]
+    ok3 = names == ['self', 'with_schema_location'] and len(a.defaults) == 1 \
+        and isinstance(a.defaults[0], ast.Constant) and a.defaults[0].value is False
+    if not ok3:
+        raise TranslateError('build_schema_nodes: signature %s' % ast.unparse(a))
+    return bool(ok1 and ok2)
+
+
 # ------------------------------------------------------------------ interface/_base.py
 def pref_stem(repo):
     tree = _parse(repo, 'spyne/interface/_base.py')
@@ -285,7 +315,7 @@ def topo_key(repo):
 
 # ------------------------------------------------------------------ output
 REPAIRED = {'in_suffix': 'InHeaderMsg', 'out_suffix': 'OutHeaderMsg', 'in': True, 'out': True, 'inh': True,
-            'outh': True, 'stem': 's', 'imports_sorted': True, 'topo_key': ['KRepr', 'KNamespace', 'KTypeName', 'KSubName']}
+            'outh': True, 'stem': 's', 'imports_sorted': True, 'rebuilds': True, 'topo_key': ['KRepr', 'KNamespace', 'KTypeName', 'KSubName']}
 
 
 def generate(repo):
@@ -294,6 +324,7 @@ def generate(repo):
     for part in (lambda: vals.update(wsdl11(repo)),
                  lambda: vals.update(stem=pref_stem(repo)),
                  lambda: vals.update(imports_sorted=imports_sorted(repo)),
+                 lambda: vals.update(rebuilds=rebuilds_schema(repo)),
                  lambda: vals.update(topo_key=topo_key(repo))):
         try:
             part()
@@ -325,7 +356,11 @@ Definition gen_imports_sorted : bool := %s.
 
 (* spyne/util/toposort.py: the tuple toposort2 sorts a tier by *)
 Definition gen_topo_key : list kcomp := [%s].
+
+(* Wsdl11.build_interface_document starts, unconditionally, with self.build_schema_nodes(), which starts by
+   emptying self.schema_dict: the document does not depend on what was built on the object before *)
+Definition gen_rebuilds_schema : bool := %s.
 ''' % (mism, b(not problems), gtext(vals['in_suffix']), vals['in_suffix'], gtext(vals['out_suffix']), vals['out_suffix'],
        b(vals['in']), b(vals['out']), b(vals['inh']), b(vals['outh']), gtext(vals['stem']), vals['stem'],
-       b(vals['imports_sorted']), '; '.join(vals['topo_key']))
+       b(vals['imports_sorted']), '; '.join(vals['topo_key']), b(vals['rebuilds']))
     return {'WsdlGen.v': text}
